@@ -1,5 +1,6 @@
 import PlasVerif.Driver.Util
 import PlasVerif.Spec.TableTree
+import PlasVerif.Spec.ListNumbers
 namespace PlasVerif.Driver.C10
 open PlasVerif.Driver PlasVerif.Model.Lists PlasVerif.Model.Arrays PlasVerif.Spec.ListTree PlasVerif.Spec.TableTree
 
@@ -183,17 +184,71 @@ def colsRes : Except CErr (List ColStyle) → String
 def marksStr (m : Marks) : String :=
   (if m.top then "T" else "") ++ (if m.bottom then "B" else "") ++ (if m.left then "L" else "") ++ (if m.right then "R" else "")
 
-def cellObsStr (span : Nat) (m : Marks) (st : ColStyle) (body : String) : String :=
-  s!"{span};{marksStr m};{colStr st};{body}"
+def linkStr : Option (Nat × Nat) → String
+  | none => "-"
+  | some (a, b) => s!"{a}-{b}"
+
+def cellObsStr (span : Nat) (m : Marks) (st : ColStyle) (link : Option (Nat × Nat)) (body : String) : String :=
+  s!"{span};{marksStr m};{colStr st};{linkStr link};{body}"
 
 def tableStr (rows : List (List String)) : String := " / ".intercalate (rows.map fun r => " | ".intercalate r)
+
+/-- observation of the finished rows, with the `linkCells` links computed by `lk` -/
+def rowsObs (lk : Nat → Nat → RowR → List (Option (Nat × Nat))) (ncols : Nat) (rows : List RowR) : String :=
+  tableStr (rows.map fun (r : RowR) =>
+    (r.zip (lk ncols 0 r)).map fun ((c : CellR), l) => cellObsStr c.span c.marks c.style l (shapeStr c.items))
+
 
 def loc? : String → Option Loc
   | "top" => some .top | "bottom" => some .bottom | "left" => some .left | "right" => some .right | _ => none
 
 def fuelFor (ws : List String) : Nat := 4 * ws.length + 20
 
+/-! ### list numbering -/
+section numbering
+open PlasVerif.Model.ListNumbering PlasVerif.Spec.ListNumbers
+
+/- forests:  lists ::= ( "[" items "]" )*   items ::= ( ("i0" | "i1") lists )* -/
+mutual
+def pLLists : Nat → List String → Option (LLists × List String)
+  | 0, _ => none
+  | f + 1, "[" :: r => do
+    let (is, r) ← pLItems f r
+    match r with
+    | "]" :: r => do let (ls, r) ← pLLists f r; pure (.cons is ls, r)
+    | _ => none
+  | _ + 1, ws => some (.nil, ws)
+def pLItems : Nat → List String → Option (LItems × List String)
+  | 0, _ => none
+  | f + 1, "i0" :: r => do let (ls, r) ← pLLists f r; let (is, r) ← pLItems f r; pure (.cons false ls is, r)
+  | f + 1, "i1" :: r => do let (ls, r) ← pLLists f r; let (is, r) ← pLItems f r; pure (.cons true ls is, r)
+  | _ + 1, ws => some (.nil, ws)
+end
+
+def evStr : Ev → String | .begin_ => "B" | .end_ => "E" | .item false => "I0" | .item true => "I1"
+def ev? : String → Option Ev
+  | "B" => some .begin_ | "E" => some .end_ | "I0" => some (.item false) | "I1" => some (.item true) | _ => none
+
+def obsStr (os : List ItemObs) : String := joinSp (os.map fun o => s!"{o.counter}.{o.position}")
+def numStr (os : List ItemObs) (s : St) : String :=
+  s!"ok:{obsStr os} | d={s.depth} c={s.c 0},{s.c 1},{s.c 2},{s.c 3}"
+
+end numbering
+
 def handle : List String → String
+  | "pos" :: ws =>
+    match pLLists (fuelFor ws) ws with
+    | some (ls, []) =>
+      let (os, st) := PlasVerif.Model.ListNumbering.run ls.events PlasVerif.Model.ListNumbering.fresh
+      let sp := if ls.fits 0 then numStr (ls.expect 0) PlasVerif.Model.ListNumbering.fresh else "-"
+      s!"{numStr os st}\t{sp}\t{joinSp (ls.events.map evStr)}"
+    | _ => "bad-op"
+  | "posev" :: ws =>
+    match ws.mapM ev? with
+    | some es =>
+      let (os, st) := PlasVerif.Model.ListNumbering.run es PlasVerif.Model.ListNumbering.fresh
+      s!"{numStr os st}\t-"
+    | none => "bad-op"
   | "cspec" :: ws =>
     match pCSpec (fuelFor ws) ws with
     | some (s, []) =>
@@ -237,20 +292,18 @@ def handle : List String → String
         let b := Block.table ty c cs rs
         let m := match parse (b.render 2) with
           | some [arr] =>
-            "ok:" ++ tableStr ((applyBordersTable cols (rowsOf arr)).map fun (r : RowR) =>
-              r.map fun (c : CellR) => cellObsStr c.span c.marks c.style (shapeStr c.items))
+            "ok:" ++ rowsObs linkRow cols.length (applyBordersTable cols (rowsOf arr))
           | some _ => "shape"
           | none => "fuel"
         let mAsIs := match parse (b.render 2) with
           | some [arr] =>
-            "ok:" ++ tableStr ((applyBordersTableAsIs cols (rowsOf arr)).map fun (r : RowR) =>
-              r.map fun (c : CellR) => cellObsStr c.span c.marks c.style (shapeStr c.items))
+            "ok:" ++ rowsObs linkRowAsIs cols.length (applyBordersTableAsIs cols (rowsOf arr))
           | _ => "-"
         let sp := if b.wf && s.wf then
             (match s.columns, denTable cols c cs rs with
              | some cols', some rows =>
                if cols' == cols then
-                 "ok:" ++ tableStr (rows.map fun (r : List CellObs) => r.map fun (c : CellObs) => cellObsStr c.span c.marks c.style (shapeStr (c.body.nodes 4)))
+                 "ok:" ++ tableStr (rows.map fun (r : List CellObs) => r.map fun (c : CellObs) => cellObsStr c.span c.marks c.style c.link (shapeStr (c.body.nodes 4)))
                else "colspec-differs"
              | _, _ => "-")
           else "-"
